@@ -46,21 +46,21 @@ type vfoCmd struct {
 }
 
 type vfoScn struct {
-	Name     string
-	Keys     []string
-	Txn      bool
-	Pipeline bool
-	BC       int
-	Cmds     []vfoCmd
-	During   []vfdoubles.Sched
-	Cross    bool   // transactional stream with a batch spanning two nodes
-	NoFollow bool   // plain mode with handleMoveErr/handleAskErr switched off in the configuration
-	Fault    string // er | cb | ac injected at request FaultAt ("" = none)
-	FaultAt  int
-	StallOn  bool // hold node StallNode until every command routed elsewhere has executed (the sender is then idle)
+	Name      string
+	Keys      []string
+	Txn       bool
+	Pipeline  bool
+	BC        int
+	Cmds      []vfoCmd
+	During    []vfdoubles.Sched
+	Cross     bool   // transactional stream with a batch spanning two nodes
+	NoFollow  bool   // plain mode with handleMoveErr/handleAskErr switched off in the configuration
+	Fault     string // er | cb | ac injected at request FaultAt ("" = none)
+	FaultAt   int
+	StallOn   bool // hold node StallNode until every command routed elsewhere has executed (the sender is then idle)
 	StallNode int
-	Resume   bool // plain modes: EnableResumeFromBreakPoint, the checkpoint offset is stored on the target
-	CpRetry  bool // resumable run whose FIRST checkpoint flush fails on the checkpoint key's redirect and is retried
+	Resume    bool // plain modes: EnableResumeFromBreakPoint, the checkpoint offset is stored on the target
+	CpRetry   bool // resumable run whose FIRST checkpoint flush fails on the checkpoint key's redirect and is retried
 }
 
 func vfoEncode(args ...string) []byte {
